@@ -14,8 +14,8 @@ import vlib
 ASSUME = [
     "real event_reader.cc, bb_utils.cc, bxdecay0_clparser.cpp under ministl; libstdc++'s own parsing is replaced by the stream model (harness/e3/adv_stream.h, c11_reader.cpp -DADVERSARIAL)",
     "bounds: event files: 1 file x <= 1 record with 2 reader calls, 2 files x <= 1 record with 1 call, every extraction adversarial (ok with arbitrary value / parse failure / premature end); catalogue files <= 2 lines x <= 2 (quick) / 3 characters; command line <= 2 (quick) / 3 tokens from a 28-word vocabulary",
-    "a path that exhausts the instruction budget (3e6 instructions on these tiny inputs) is reported as a hang",
-    "not covered: the gA table loaders of dbd_gA.cc (GSL types; see C14)",
+    "a path that exhausts the instruction budget (3e6 instructions on these tiny inputs; 3e7 for the gA tables; the rejection sampler behind the pdf loader is followed for 3 rounds) is reported as a hang",
+    "gA tables (dbd_gA.cc, both loaders + the samplers on whatever they accept): token-level file model (harness/e3/c14_gA.cpp PART=6/7); esum, e_min, e_max, step arbitrary reals, sample count from {0, 1, 2, 3, 4000000000, -1}, cdf loader: <= 2 lines x <= 2 tokens out of {'^0', '^400', '!1', number of any value, junk word} and <= 3 lines x <= 2 tokens out of {'!1', number of any value} (the smallest tables the loader accepts, so that the sampler runs on them); pdf loader: <= 3 (quick 2) rows x <= 3 (quick 2) words (number of any value or junk); GSL's interpolation object is a stub that touches the first and last table element it would read",
 ]
 
 
@@ -35,18 +35,26 @@ def run(tier, seed):
     for w in (0, 1, 2):
         jobs.append(("lists%d" % w, vlib.E3H + "/c15_lists.cpp", bu, ["WHICH=%d" % w, "ADV_NL=2", "ADV_LL=%d" % LL]))
     jobs.append(("cmdline", vlib.E3H + "/c13_parser.cpp", ll_cl, ["NTOK=%d" % (2 if tier == "quick" else 3)]))
+    ga = vlib.ir_units(wd, ["dbd_gA", "event", "particle", "particle_utils", "utils"])
+    jobs.append(("gA_cdf_adv", vlib.E3H + "/c14_gA.cpp", ga, ["PART=6", "NL=2", "NT=2"]))                 # all token kinds, loader robustness
+    jobs.append(("gA_cdf_adv_sampler", vlib.E3H + "/c14_gA.cpp", ga, ["PART=6", "NL=3", "NT=2", "FEWKINDS"]))  # '!1' / arbitrary numbers: accepted tables reach the sampler
+    jobs.append(("gA_pdf_adv", vlib.E3H + "/c14_gA.cpp", ga, ["PART=7"] + (["NL=2", "NT=2"] if tier == "quick" else ["NL=3", "NT=3"])))
+    jobs.append(("witness_gA", vlib.E3H + "/c14_gA.cpp", ga, ["PART=6", "NL=3", "NT=2", "FEWKINDS", "WITNESS"]))
     jobs.append(("witness", vlib.E3H + "/c15_lists.cpp", bu, ["WHICH=0", "ADV_NL=1", "ADV_LL=1", "WITNESS"]))
     mods = vlib.parallel(jobs, lambda j: vlib.irx_link(wd, j[0], j[2], j[1], j[3]))
-    res = vlib.irx_run(mods, K=400, timeout=900 if tier == "quick" else 3000, extra=["--max-insts", "3000000", "--max-paths", "600000"])
-    wit, res = res[-1], res[:-1]
-    keys = [j[0] for j in jobs[:-1]]
+    exe = vlib.irx_exe()
+    # the rejection sampler behind the pdf loader loops on a symbolic acceptance test: 3 rounds; everything else K=400
+    cmds = [[exe, m, "--entry", "harness", "--K", "3" if j[0] == "gA_pdf_adv" else "400", "--max-insts", "30000000" if j[0].startswith("gA") or j[0] == "witness_gA" else "3000000", "--max-paths", "600000"] for m, j in zip(mods, jobs)]
+    res = vlib.run_jsonl(cmds, timeout=900 if tier == "quick" else 3000)
+    wits, res = res[-2:], res[:-2]
+    keys = [j[0] for j in jobs[:-2]]
     agg = vlib.irx_aggregate(res)
-    witness_ok = any(x.get("type") == "assert_fail" and "WITNESS" in x.get("what", "") for x in wit["records"])
+    witness_ok = all(any(x.get("type") == "assert_fail" and "WITNESS" in x.get("what", "") for x in w["records"]) for w in wits)
     samples, n = irx_common.collect("C15", wd, rep, keys, res)
     if agg["cut_budget"] > 0:
         rep.violation("hang:instruction budget exhausted on %d path(s)" % agg["cut_budget"], "a loader did not terminate within 3e6 instructions on a bounded adversarial input", "-")
     return irx_common.finish("C15", tier, seed, t0, rep, agg, samples, witness_ok,
-                             {"functions": ["event_reader::load_next_event/_open_new_file_/_check_next_event_", "bb_utils: _init_dbd_isotopes/_init_background_isotopes/_init_dbd_modes", "cl_parser::parse"]}, ASSUME)
+                             {"functions": ["event_reader::load_next_event/_open_new_file_/_check_next_event_", "bb_utils: _init_dbd_isotopes/_init_background_isotopes/_init_dbd_modes", "cl_parser::parse", "dbd_gA::_load_tabulated_cdf_opt_", "dbd_gA::_load_tabulated_pdf_", "load_optimized_cdf_array", "dbd_gA::shoot_e1_e2"]}, ASSUME)
 
 
 def replay(path):
